@@ -87,3 +87,117 @@ Theorem C03_only_reported : forall expand_str ranged_sorted ranged_plain sorted 
 Proof. exact state_only_if_set. Qed.
 Print Assumptions C03_fresh.
 Print Assumptions C03_only_reported.
+
+(* ------------------------------------------------------------------------------------------------------------------
+   END TO END, over histories (Proofs/DaemonE2E.v; the machinery of C02_end_to_end): in every pass of every run of the
+   whole-daemon model from start-up (any rounds: any client input, any number of clients, any transport, any peer behaviour),
+   with the external ledger (enq, ok, fail) per client id (drun_led / dstep_led: computed from the enqueue lists _parse_input
+   returns and from the EvComplete events of the passes' event lists) and a second external ghost, the WRITE LEDGER of the
+   result lists (drun_wr / dstep_wr: W s = the nodes whose Arg in list s - slot s of the store - was changed by the device
+   half of some pass; computed only from the store the client half of a pass returns and the store the pass returns):
+
+   (1) the ledger is tied to the state before and after the pass (C02_ledger_tied); a result list in use by a command is
+       referred to by THAT client's queued actions only (so, by C11_result_list_writes, the device half changes it only while
+       visiting a device whose queue holds an action of this command); a list that does not exist yet has an empty write
+       ledger (so W s only holds changes made after the command that owns s was created);
+   (2) the callback half of the pass leaves a client without a command exactly as it is; for every client with a QUERY
+       command (status / beacon / temperature) in progress when the callback half of the pass
+       begins: its output history gains exactly `render new`, any accepted token list of its stream extends by `new`;
+       while the command goes on, `new` holds informational lines only; when the stream gains the TERMINAL token in this pass:
+         - every action enqueued for the command has produced its completion event (ok + fail = enq > 0), the token is
+           103 <-> no completion carried an error (fail = 0, ok = enq),  211 <-> one did;
+         - the reply in front of the prompt is reply_status (status, beacon) / reply_nointerp (temperature) of the
+           command's OWN result list as it stands at the end of the pass and of the flag (0 < fail): with C03_status_text,
+           C03_partition, C03_temp_once this fixes the on / off / unknown lists and the 303 lines;
+         - every Arg of that list that is not as arglist_create left it (a state other than unknown: the node is listed on
+           or off; a value: the node is listed with a temperature) belongs to a node whose Arg IN THIS LIST was changed by
+           the device half of a pass after the command was created and no later than this pass.
+   (* OPEN *) "changed by the device half of a pass" is not yet "by a setplugstate statement for that node's plug executed
+   by an action of this command".  Missing is a device-layer lemma over post_poll_one (Model/Device.v):
+       post_poll_one ... d store ... = Ok (d', store', _, _) -> arg_find (nth s store' []) n <> arg_find (nth s store []) n ->
+       some iteration of _process_action of this call ran, for the head action act with a_args act = Some s, a
+       SetPlugState / SetResult statement whose node resolves to n  (an OSetState n / OSetResult n observation of
+       Spec/ScriptSem.v in that iteration's trace);
+   Proofs/DeviceSlots.v has only the frame half (SlotRel: lists the queue does not refer to are untouched); the statement-level
+   half is C03_only_reported over the single-client world. *)
+From PM Require Import Model.Device Model.Daemon Spec.Proto Proofs.DaemonLedger Proofs.DaemonSlots Proofs.DaemonPending Proofs.DaemonE2E.
+From PM Require Proofs.DaemonE2EEx Properties.C07.
+Theorem C03_end_to_end : forall expand_str ranged_sorted ranged_plain sorted rmatch compress short_circuit st0 now plans rs r,
+  boot compress st0 -> Z.of_nat (length rs) < INT_MAX - 1 ->
+  exists st1 o1, dinit st0 now plans = Ok (st1, o1) /\
+  match drun expand_str ranged_sorted ranged_plain sorted rmatch compress short_circuit st1 rs [] with
+  | Ok (st, _) =>
+    let L := drun_led expand_str ranged_sorted ranged_plain sorted rmatch compress short_circuit st1 rs lzero in
+    let W := drun_wr expand_str ranged_sorted ranged_plain sorted rmatch compress short_circuit st1 rs (winit (dm_store st1)) in
+    match cli_post_poll expand_str ranged_sorted ranged_plain sorted st r with
+    | Ok (sta, e1) =>
+      match dev_loop ranged_sorted rmatch compress short_circuit (length (dm_devs sta)) (r_now r) sta O (r_dev r) None [] with
+      | Ok (stb, tmo, e2) =>
+        dstep expand_str ranged_sorted ranged_plain sorted rmatch compress short_circuit st r = Ok (stb, mkDout (e1 ++ e2) tmo) /\
+        let Lb := dstep_led expand_str ranged_sorted ranged_plain sorted rmatch compress short_circuit st r L in
+        let Wb := dstep_wr expand_str ranged_sorted ranged_plain sorted rmatch compress short_circuit st r W in
+        (* (1) *)
+        ledger_tied L st /\ ledger_tied Lb stb /\
+        (forall c s x, In (c, s) (aslots (dm_devs st)) -> In x (dm_clients st) -> cmd_slot x = Some s -> cid x = c) /\
+        (forall s, (length (dm_store st) <= s)%nat -> W s = []) /\
+        (* (2) *)
+        (forall p x0, nth_error (dm_clients sta) p = Some x0 -> cl_cmd (dc x0) = None -> nth_error (dm_clients stb) p = Some x0) /\
+        forall p x0 k0, nth_error (dm_clients sta) p = Some x0 -> cl_cmd (dc x0) = Some k0 -> is_query (k_com k0) = true ->
+          exists x new, nth_error (dm_clients stb) p = Some x /\ cid x = cid x0 /\
+            cl_out (dc x) = cl_out (dc x0) ++ render new /\
+            (forall toks0, cli_okT x0 toks0 -> cli_okT x (toks0 ++ new)) /\
+            match cl_cmd (dc x) with
+            | Some k => Forall info_tok new /\ k_com k = k_com k0 /\ k_args k = k_args k0
+            | None =>
+                let r := Lb (cid x0) in let al := nth (k_args k0) (dm_store stb) [] in
+                exists infos infos_r c p, new = infos ++ (infos_r ++ [TLine c p]) ++ [TPrompt] /\ Forall info_tok infos /\ Forall info_tok infos_r /\
+                  (c = 103%N \/ c = 211%N) /\
+                  l_ok r + l_fail r = l_enq r /\ 0 < l_enq r /\ 0 <= l_ok r /\ 0 <= l_fail r /\
+                  (c = 103%N <-> l_fail r = 0 /\ l_ok r = l_enq r) /\ (c = 211%N <-> 0 < l_fail r) /\
+                  ((Z.eqb (k_com k0) PM_STATUS_PLUGS || Z.eqb (k_com k0) PM_STATUS_BEACON)%bool = true ->
+                     render (infos_r ++ [TLine c p]) = reply_status ranged_sorted (dc x0) al (0 <? l_fail r)) /\
+                  (k_com k0 = PM_STATUS_TEMP -> render (infos_r ++ [TLine c p]) = reply_nointerp ranged_sorted (dc x0) al (0 <? l_fail r)) /\
+                  (forall n a, arg_find al n = Some a ->
+                     (ar_state a = ST_UNKNOWN /\ ar_result a = RT_NONE /\ ar_val a = None) \/ In n (Wb (k_args k0)))
+            end
+      | _ => False
+      end
+    | _ => False
+    end
+  | _ => False
+  end.
+Proof. exact c03_end_to_end. Qed.
+(* is_query, the write ledger and its step, spelled out *)
+Theorem C03_ledgers_spelled_out :
+  (forall com, is_query com = (Z.eqb com PM_STATUS_PLUGS || Z.eqb com PM_STATUS_BEACON || Z.eqb com PM_STATUS_TEMP)%bool) /\
+  (forall store s, winit store s = map ar_node (nth s store [])) /\
+  (forall W store store' s, wr_step W store store' s =
+     W s ++ filter (fun n => negb (oarg_eqb (arg_find (nth s store []) n) (arg_find (nth s store' []) n))) (map ar_node (nth s store' []))) /\
+  (forall expand_str ranged_sorted ranged_plain sorted rmatch compress short_circuit st r W,
+     dstep_wr expand_str ranged_sorted ranged_plain sorted rmatch compress short_circuit st r W =
+     match cli_post_poll expand_str ranged_sorted ranged_plain sorted st r with
+     | Ok (sta, _) => match dstep expand_str ranged_sorted ranged_plain sorted rmatch compress short_circuit st r with
+                      | Ok (stb, _) => wr_step W (dm_store sta) (dm_store stb) | _ => W end
+     | _ => W
+     end).
+Proof. exact (conj (fun _ => eq_refl) (conj (fun _ _ => eq_refl) (conj (fun _ _ _ _ => eq_refl) (fun _ _ _ _ _ _ _ _ _ _ => eq_refl)))). Qed.
+(* the on / off lists of the reply (C03_partition) read through (2): a node listed on or off has an entry in the write ledger *)
+Theorem C03_listed_was_written : forall (al : arglist) (wr : list text) n,
+  (forall m a, arg_find al m = Some a -> (ar_state a = ST_UNKNOWN /\ ar_result a = RT_NONE /\ ar_val a = None) \/ In m wr) ->
+  In n (on_nodes (args_iter al)) \/ In n (off_nodes (args_iter al)) -> In n wr.
+Proof. exact listed_was_written. Qed.
+(* non-vacuity (Proofs/DaemonE2EEx.v; evaluated): the daemon of C02_end_to_end_nonvacuous; client 1 sends `status n1`, the device
+   answers `on`: in the fifth pass EvComplete 1 ACT_ESUCCESS is delivered, the ledger entry of id 1 goes from (1,0,0) to (1,1,0),
+   the stream gains `302 on: n1`, `302 off:`, `302 unknown:`, `103 Query complete` and the prompt, result list 0 holds n1 = ON
+   and the write ledger of list 0 holds n1 *)
+Example C03_end_to_end_nonvacuous :
+  boot C07.ex_compress DaemonE2EEx.e2e_st /\
+  DaemonE2EEx.last_pass DaemonE2EEx.query_rounds =
+    Some ([(1, Some PM_STATUS_PLUGS, DaemonE2EEx.banner)],
+          [(1, None, DaemonE2EEx.banner ++ render [TLine 302 (bslit "on:      n1"); TLine 302 (bslit "off:     "); TLine 302 (bslit "unknown: ");
+                                                   TLine 103 (bslit "Query complete"); TPrompt])],
+          [SysDev 0 (EvWrote (bslit "st p1\n")); SysDev 0 (EvMatched 2); SysDev 0 (EvComplete 1 ACT_ESUCCESS [])],
+          mkL 1 0 0, mkL 1 1 0, [[mkArg (bslit "n1") ST_ON RT_NONE (Some (bslit "on"))]], [bslit "n1"]).
+Proof. exact (conj DaemonE2EEx.e2e_boot DaemonE2EEx.query_example). Qed.
+Print Assumptions C03_end_to_end.
+Print Assumptions C03_listed_was_written.
